@@ -248,10 +248,30 @@ pub fn expr(pool: Vec<MVersion>, depth: u32, max_alts: usize) -> BoxedStrategy<E
     .boxed()
 }
 
+/// `Range::any()` cannot be obtained from `Range::parse` and set operations on parsed ranges (a parsed `*` is
+/// `>=0.0.0`, and neither operation removes a lower bound *and* an upper bound), so it lies outside the
+/// quantification of the properties.  It is used as an extra leaf - it is the only value unbounded on both
+/// sides - but only while the model can tell it apart: its printed form must read as unbounded on both sides
+/// and differ from what a parsed `*` prints.  A tree that prints `Range::any()` as `>=0.0.0` keeps every listed
+/// property and must not raise an alarm; then the leaf is simply not generated.
+pub fn any_leaf_usable() -> bool {
+    static USABLE: std::sync::OnceLock<bool> = std::sync::OnceLock::new();
+    *USABLE.get_or_init(|| {
+        let printed = guard(|| (Range::any().to_string(), Range::parse("*").map(|r| r.to_string()).unwrap_or_default()));
+        match printed {
+            Ok((a, p)) => match IModel::from_display(&a) {
+                Some(m) => a != p && m.ivs.len() == 1 && m.ivs[0].lo.is_none() && m.ivs[0].hi.is_none(),
+                None => false,
+            },
+            Err(_) => false,
+        }
+    })
+}
+
 /// as `expr`, with `Range::any()` as an occasional leaf (not for the print/parse round trip: `*` re-parses
 /// to `>=0.0.0`, and `Range::any()` is not reachable from `Range::parse`)
 pub fn expr_with_any(pool: Vec<MVersion>, depth: u32, max_alts: usize) -> BoxedStrategy<Expr> {
-    let l = prop_oneof![24 => leaf(pool, max_alts), 1 => Just(Expr::Any)];
+    let l = if any_leaf_usable() { prop_oneof![24 => leaf(pool.clone(), max_alts), 1 => Just(Expr::Any)].boxed() } else { leaf(pool.clone(), max_alts) };
     if depth == 0 {
         return l.boxed();
     }
